@@ -16,6 +16,7 @@ mod c12;
 mod c13;
 mod c14;
 mod c15;
+mod c16;
 mod c17;
 mod c18;
 mod c19;
@@ -54,6 +55,7 @@ fn main() {
         "C13" => c13::replay(&cases, &mut rep),
         "C14" => c14::replay(&cases, &mut rep),
         "C15" => c15::replay(&cases, &mut rep),
+        "C16" => c16::replay(&cases, &mut rep),
         "C17" => c17::replay(&cases, &mut rep),
         "C18" => c18::replay(&cases, &mut rep),
         "C19" => c19::replay(&cases, &mut rep),
